@@ -18,6 +18,7 @@ import (
 	"context"
 	"encoding/hex"
 	"net"
+	"sync"
 
 	"github.com/honeytrap/honeytrap/event"
 	"github.com/honeytrap/honeytrap/pushers"
@@ -49,6 +50,8 @@ type tftpService struct {
 
 	limiter *Limiter
 
+	// buffers is used by the handlers of all datagrams concurrently
+	mu      sync.Mutex
 	buffers map[string]*tftpFile
 }
 
@@ -142,13 +145,17 @@ func (s *tftpService) Handle(ctx context.Context, conn net.Conn) error {
 			event.Custom("tftp.filename", filename),
 			event.Custom("tftp.mode", mode),
 		))
+		// register the transfer before acknowledging it, the client's first
+		// DATA packet may arrive right after the ACK
+		addr := conn.RemoteAddr().String()
+		s.mu.Lock()
+		s.buffers[addr] = &tftpFile{filename: filename, mode: mode}
+		s.mu.Unlock()
 		message := []byte{
 			0x00, byte(ACK),
 			0x00, 0x00,
 		}
 		conn.Write(message)
-		addr := conn.RemoteAddr().String()
-		s.buffers[addr] = &tftpFile{filename: filename, mode: mode}
 	case DATA:
 		blkNum := make([]byte, 2)
 		if _, err := b.Read(blkNum); err != nil {
@@ -162,21 +169,27 @@ func (s *tftpService) Handle(ctx context.Context, conn net.Conn) error {
 			return err
 		}
 		addr := conn.RemoteAddr().String()
-		if _, ok := s.buffers[addr]; !ok {
+		s.mu.Lock()
+		file, ok := s.buffers[addr]
+		if ok {
+			file.content = append(file.content, buffer[:n]...)
+			if n != 512 { // Termination
+				delete(s.buffers, addr)
+			}
+		}
+		s.mu.Unlock()
+		if !ok {
 			log.Error("DATA packet with no matching buffer!")
 			message := []byte{0x00, byte(ERROR), 0x00, 0x04, 0x00}
 			conn.Write(message)
 			return nil
 		}
-		s.buffers[addr].content = append(s.buffers[addr].content, buffer[:n]...)
 		message := []byte{
 			0x00, byte(ACK),
 			blkNum[0], blkNum[1],
 		}
 		conn.Write(message)
 		if n != 512 { // Termination
-			file := s.buffers[addr]
-			delete(s.buffers, addr)
 			s.ch.Send(event.New(
 				EventOptions,
 				event.Category("tftp"),
